@@ -176,6 +176,72 @@ theorem C11_heap_fresh_disjoint (n : Nat) (s t : Store) (a b : Addr) (hc : Close
   have h2 := C11_heap_reach_closed n s b hc hb x hx'
   exact Nat.lt_irrefl _ (Nat.lt_of_lt_of_le h2 h1)
 
+/-! ## a handle whose reachable cells all exist; arbitrary writes and allocations elsewhere -/
+
+/-- everything reachable from `x` in at most `n` steps is a cell of the store (true of every existing `x` in a closed store) -/
+def Valid (n : Nat) (s : Store) (x : Addr) : Prop := ∀ y ∈ reachN n s x, y < s.length
+
+private theorem valid_kid {n : Nat} {s : Store} {a r : Addr} {c : Cell} (hv : Valid (n + 1) s a) (hc : s[a]? = some c)
+    (hr : r ∈ c.kids) : Valid n s r := by
+  intro y hy
+  apply hv y
+  simp only [reachN, hc, List.mem_cons, List.mem_flatMap]
+  exact Or.inr ⟨r, hr, hy⟩
+
+/-- ALLOCATION keeps the view and the reachable set of every handle whose reachable cells exist (no `Closed` needed) -/
+theorem C11_heap_alloc_valid (n : Nat) (s t : Store) (a : Addr) (hv : Valid n s a) :
+    viewN n (s ++ t) a = viewN n s a ∧ reachN n (s ++ t) a = reachN n s a := by
+  induction n generalizing a with
+  | zero => exact ⟨rfl, rfl⟩
+  | succ n ih =>
+    have ha : a < s.length := hv a (by simp [reachN])
+    have hget : (s ++ t)[a]? = s[a]? := List.getElem?_append_left ha
+    simp only [viewN, reachN, hget]
+    cases hcell : s[a]? with
+    | none => exact ⟨rfl, rfl⟩
+    | some cell =>
+      simp only
+      refine ⟨?_, ?_⟩
+      · congr 1
+        apply flatMap_congr'
+        intro o ho
+        cases o with
+        | none => rfl
+        | some r => exact (ih r (valid_kid hv hcell (mem_kids.mpr ho))).1
+      · congr 1
+        apply flatMap_congr'
+        intro r hr
+        exact (ih r (valid_kid hv hcell hr)).2
+
+/-- `s'` is `s` after finitely many steps, each either an ARBITRARY overwrite of a cell in `W` or an allocation -/
+inductive Steps (W : List Addr) : Store → Store → Prop
+  | refl (s : Store) : Steps W s s
+  | write {s s1 : Store} (a : Addr) (c : Cell) : Steps W s s1 → a ∈ W → Steps W s (s1.set a c)
+  | alloc {s s1 : Store} (t : Store) : Steps W s s1 → Steps W s (s1 ++ t)
+
+/-- FRAME for whole calls: if a call only overwrites cells in `W` and allocates, every handle `x` whose reachable
+    cells exist and avoid `W` shows the same view and reaches the same cells afterwards — whatever is written -/
+theorem C11_heap_steps_frame {W : List Addr} {s s' : Store} (h : Steps W s s') (n : Nat) (x : Addr) (hv : Valid n s x)
+    (hw : ∀ a ∈ W, a ∉ reachN n s x) :
+    viewN n s' x = viewN n s x ∧ reachN n s' x = reachN n s x ∧ s.length ≤ s'.length := by
+  induction h with
+  | refl => exact ⟨rfl, rfl, Nat.le_refl _⟩
+  | @write s1 a c _ ha ih =>
+    obtain ⟨iv, ir, il⟩ := ih
+    have hna : a ∉ reachN n s1 x := by rw [ir]; exact hw a ha
+    exact ⟨by rw [C11_heap_frame n s1 x a c hna, iv], by rw [C11_heap_frame_reach n s1 x a c hna, ir], by simpa using il⟩
+  | @alloc s1 t _ ih =>
+    obtain ⟨iv, ir, il⟩ := ih
+    have hv1 : Valid n s1 x := fun y hy => Nat.lt_of_lt_of_le (hv y (by rw [← ir]; exact hy)) il
+    obtain ⟨av, ar⟩ := C11_heap_alloc_valid n s1 t x hv1
+    exact ⟨by rw [av, iv], by rw [ar, ir], by rw [List.length_append]; exact Nat.le_trans il (Nat.le_add_right _ _)⟩
+
+private theorem Steps.trans {W : List Addr} {s s' s'' : Store} (h1 : Steps W s s') (h2 : Steps W s' s'') : Steps W s s'' := by
+  induction h2 with
+  | refl => exact h1
+  | write a c _ ha ih => exact .write a c ih ha
+  | alloc t _ ih => exact .alloc t ih
+
 /-! ## library calls that only allocate -/
 
 /-- the call leaves every existing cell as it was: the store afterwards is the store before plus new cells -/
@@ -328,15 +394,6 @@ theorem C02_heap_from_composite_inputs_untouched (hdr sec : Addr) (n : Nat) :
     InputsUntouched (tcFromCompositeFields hdr sec n) := by
   apply C11_heap_allocOnly_inputs_untouched
   unfold tcFromCompositeFields; alloc_ops
-
-/-- `to_space_packet()` of a telecommand / a telemetry packet modifies nothing the caller holds (the packet included) -/
-theorem C02_heap_to_space_packet_inputs_untouched (p : Addr) :
-    InputsUntouched (tcToSpacePacket p) ∧ InputsUntouched (tmToSpacePacket p) := by
-  constructor <;> apply C11_heap_allocOnly_inputs_untouched
-  · unfold tcToSpacePacket
-    repeat' (first | exact alloc_deepCopyHeader _ | exact alloc_new _ | exact alloc_ref _ _ | exact alloc_scalAt _ _ | intro _ | apply alloc_bind)
-  · unfold tmToSpacePacket
-    repeat' (first | exact alloc_deepCopyHeader _ | exact alloc_new _ | exact alloc_ref _ _ | exact alloc_scalAt _ _ | intro _ | apply alloc_bind)
 
 /-- `RequestId.from_sp_header(header)` / `RequestId.from_pus_tc(tc)` modify neither header nor telecommand -/
 theorem C15_heap_request_id_inputs_untouched (x : Addr) :
@@ -493,11 +550,12 @@ private theorem leaf_kids {s : Store} {a : Addr} {c : Cell} (hl : Leaf s a) (hc 
 private theorem kid_of_ref {c : Cell} {i : Nat} {r : Addr} (h : c.refs[i]? = some (some r)) : r ∈ c.kids :=
   mem_kids.mpr (List.mem_of_getElem? h)
 
-/-- SEPARATION (since 840b2f2): the request ID taken from a header has no cell in common with ANY object that existed
-    before the call — the header, the telecommand, other request IDs of the same telecommand -/
-theorem C15_heap_reqid_separated (s : Store) (hc : Closed s) (hdr : Addr) (hl : KidsAreLeaves s hdr)
-    (rid : Addr) (s' : Store) (h : (reqIdFromSpHeader hdr).run s = some (rid, s')) (b : Addr) (hb : b < s.length) :
-    Disjoint (reach s' rid) (reach s' b) := by
+/-- what `RequestId.from_sp_header` builds, exactly: copies of the two cells the header holds, and the request-ID cell -/
+private theorem reqIdFromSpHeader_shape (s : Store) (hdr rid : Addr) (s' : Store)
+    (h : (reqIdFromSpHeader hdr).run s = some (rid, s')) :
+    ∃ ch pid psc cp cq ver, s[hdr]? = some ch ∧ ch.refs[0]? = some (some pid) ∧ ch.refs[1]? = some (some psc) ∧
+      ch.scal[0]? = some ver ∧ s[pid]? = some cp ∧ (s ++ [cp])[psc]? = some cq ∧ rid = s.length + 2 ∧
+      s' = s ++ [cp, cq, ⟨.requestId, [some s.length, some (s.length + 1)], [ver]⟩] := by
   unfold reqIdFromSpHeader at h
   obtain ⟨pid, s1, h1, h2⟩ := (run_bind_some _ _ _ _ _).mp h
   obtain ⟨⟨ch, hch, hpid⟩, e1⟩ := (ref_run _ _ _ _ _).mp h1
@@ -508,8 +566,10 @@ theorem C15_heap_reqid_separated (s : Store) (hc : Closed s) (hdr : Addr) (hl : 
   have e3 : ch' = ch := by rw [hch] at hch'; exact (Option.some.inj hch').symm
   subst e3
   obtain ⟨ver, s3, h5, h6⟩ := (run_bind_some _ _ _ _ _).mp h4
-  obtain ⟨_, e4⟩ := (scalAt_run _ _ _ _ _).mp h5
+  obtain ⟨⟨ch'', hch'', hver⟩, e4⟩ := (scalAt_run _ _ _ _ _).mp h5
   subst s3
+  have e5 : ch'' = ch' := by rw [hch] at hch''; exact (Option.some.inj hch'').symm
+  subst e5
   obtain ⟨pid', s4, h7, h8⟩ := (run_bind_some _ _ _ _ _).mp h6
   obtain ⟨cp, hcp, e5, e6⟩ := (copyCell_run _ _ _ _).mp h7
   subst pid' s4
@@ -518,15 +578,19 @@ theorem C15_heap_reqid_separated (s : Store) (hc : Closed s) (hdr : Addr) (hl : 
   subst psc' s5
   obtain ⟨e9, e10⟩ := (new_run _ _ _ _).mp h10
   subst rid s'
-  have hpl : pid < s.length := closed_kid_lt hc hch (kid_of_ref hpid)
+  exact ⟨ch'', pid, psc, cp, cq, ver, hch, hpid, hpsc, hver, hcp, hcq, by simp, by simp⟩
+
+/-- SEPARATION (since 840b2f2), to every depth `n`: the request ID taken from a header has no cell in common with ANY
+    object that existed before the call — the header, the telecommand, other request IDs of the same telecommand -/
+theorem C15_heap_reqid_separated (n : Nat) (s : Store) (hc : Closed s) (hdr : Addr) (hl : KidsAreLeaves s hdr)
+    (rid : Addr) (s' : Store) (h : (reqIdFromSpHeader hdr).run s = some (rid, s')) (b : Addr) (hb : b < s.length) :
+    Disjoint (reachN n s' rid) (reachN n s' b) := by
+  obtain ⟨ch, pid, psc, cp, cq, ver, hch, hpid, hpsc, _, hcp, hcq, rfl, rfl⟩ := reqIdFromSpHeader_shape s hdr rid s' h
   have hql : psc < s.length := closed_kid_lt hc hch (kid_of_ref hpsc)
   rw [List.getElem?_append_left hql] at hcq
   have hkp : cp.kids = [] := leaf_kids (hl pid (by simp [hch, kid_of_ref hpid])) hcp
   have hkq : cq.kids = [] := leaf_kids (hl psc (by simp [hch, kid_of_ref hpsc])) hcq
-  have hs : s ++ [cp] ++ [cq] ++ [⟨.requestId, [some s.length, some (s ++ [cp]).length], [ver]⟩]
-      = s ++ [cp, cq, ⟨.requestId, [some s.length, some (s.length + 1)], [ver]⟩] := by simp
-  rw [hs]
-  apply C11_heap_fresh_disjoint depth s _ _ b hc hb
+  apply C11_heap_fresh_disjoint n s _ _ b hc hb
   · intro c hcm r hr
     simp only [List.mem_cons, List.not_mem_nil, or_false] at hcm
     rcases hcm with rfl | rfl | rfl
@@ -534,6 +598,20 @@ theorem C15_heap_reqid_separated (s : Store) (hc : Closed s) (hdr : Addr) (hl : 
     · simp [hkq] at hr
     · simp [Cell.kids] at hr; rcases hr with rfl | rfl <;> simp
   · simp
+
+/-- the VALUE half of "snapshot": the request ID's `tc_packet_id` / `tc_psc` are cells EQUAL to the header's `PacketId` /
+    `PacketSeqCtrl` cells at the time of the call (tag and every scalar), and its version is the header's version — a
+    factory returning `RequestId.empty()`-like fresh cells does not satisfy this -/
+theorem C15_heap_reqid_snapshot_values (s : Store) (hc : Closed s) (hdr rid : Addr) (s' : Store)
+    (h : (reqIdFromSpHeader hdr).run s = some (rid, s')) :
+    ∃ ch pid psc a b ver, s[hdr]? = some ch ∧ ch.refs[0]? = some (some pid) ∧ ch.refs[1]? = some (some psc) ∧
+      ch.scal[0]? = some ver ∧ s'[rid]? = some ⟨.requestId, [some a, some b], [ver]⟩ ∧
+      s'[a]? = s[pid]? ∧ s'[b]? = s[psc]? ∧ s'[a]?.isSome ∧ s'[b]?.isSome := by
+  obtain ⟨ch, pid, psc, cp, cq, ver, hch, hpid, hpsc, hver, hcp, hcq, rfl, rfl⟩ := reqIdFromSpHeader_shape s hdr rid s' h
+  have hql : psc < s.length := closed_kid_lt hc hch (kid_of_ref hpsc)
+  rw [List.getElem?_append_left hql] at hcq
+  refine ⟨ch, pid, psc, s.length, s.length + 1, ver, hch, hpid, hpsc, hver, ?_, ?_, ?_, ?_, ?_⟩ <;>
+    simp [List.getElem?_append_right, hcp, hcq]
 
 /-! ### scalar writes inside one object graph are invisible from a disjoint one — for every sequence of setter calls -/
 
@@ -592,10 +670,37 @@ private theorem scalSteps_setScal {R : List Addr} {s s0 s' : Store} {a : Addr} {
   obtain ⟨c, hc, rfl⟩ := (setScal_run _ _ _ _ _ _).mp h
   exact .snoc a c _ st ha hc
 
-/-- every documented telecommand setter is a sequence of scalar assignments inside the telecommand's own object graph -/
-theorem C02_heap_tc_setter_confined (s : Store) (tc : Addr) (op : TcOp) (u : Unit) (s' : Store)
-    (h : (tcSet tc op).run s = some (u, s')) : ScalSteps (reach s tc) s s' := by
-  have hself : tc ∈ reach s tc := mem_reachN_self _ _ _
+/-- GENERIC isolation, for ALL sequences of calls of a setter family `f` on one object `obj`: if every call of the family is
+    a sequence of scalar assignments inside `obj`'s own object graph (to depth `n`), then a handle `x` whose reachable
+    cells are disjoint from `obj`'s shows the same view and reaches the same cells after any sequence of calls -/
+theorem C11_heap_setters_frame {α : Type} (f : α → H Unit) (obj : Addr) (n : Nat)
+    (hconf : ∀ s op u s', (f op).run s = some (u, s') → ScalSteps (reachN n s obj) s s')
+    (s : Store) (x : Addr) (hd : Disjoint (reachN n s x) (reachN n s obj)) (ops : List α) :
+    viewN n (runOps f ops s) x = viewN n s x ∧ reachN n (runOps f ops s) x = reachN n s x := by
+  have key : ∀ (ops : List α) (s0 : Store), ScalSteps (reachN n s obj) s s0 →
+      ScalSteps (reachN n s obj) s (runOps f ops s0) := by
+    intro ops
+    induction ops with
+    | nil => intro s0 h; exact h
+    | cons o ops ih =>
+      intro s0 h
+      simp only [runOps, List.foldl_cons]
+      cases hrun : (f o).run s0 with
+      | none => exact ih s0 h
+      | some p =>
+        obtain ⟨u, s1⟩ := p
+        have st := hconf s0 o u s1 hrun
+        have e : reachN n s0 obj = reachN n s obj := h.reach_eq n obj
+        rw [e] at st
+        exact ih s1 (h.trans st)
+  have st := key ops s (.refl s)
+  exact ⟨st.view_eq n x (fun a ha hx => hd a hx ha), st.reach_eq n x⟩
+
+/-- every documented telecommand setter is a sequence of scalar assignments inside the telecommand's own object graph
+    (cells at most 2 attribute steps from it) -/
+theorem C02_heap_tc_setter_confined (n : Nat) (s : Store) (tc : Addr) (op : TcOp) (u : Unit) (s' : Store)
+    (h : (tcSet tc op).run s = some (u, s')) : ScalSteps (reachN (n + 2) s tc) s s' := by
+  have hself : tc ∈ reachN (n + 2) s tc := mem_reachN_self _ _ _
   cases op with
   | seqCount v =>
     simp only [tcSet] at h
@@ -621,7 +726,7 @@ theorem C02_heap_tc_setter_confined (s : Store) (tc : Addr) (op : TcOp) (u : Uni
     obtain ⟨⟨ct, hct, hr⟩, e⟩ := (ref_run _ _ _ _ _).mp h1
     subst s1
     exact scalSteps_setScal (.refl s) (mem_reachN_step hct hr (mem_reachN_self _ _ _)) h2
-  | appData n =>
+  | appData m =>
     simp only [tcSet] at h
     obtain ⟨hd, s1, h1, h2⟩ := (run_bind_some _ _ _ _ _).mp h
     obtain ⟨⟨ct, hct, hr⟩, e⟩ := (ref_run _ _ _ _ _).mp h1
@@ -632,117 +737,78 @@ theorem C02_heap_tc_setter_confined (s : Store) (tc : Addr) (op : TcOp) (u : Uni
       have st1 := scalSteps_setScal (.refl s) hself h3
       exact scalSteps_setScal st1 (mem_reachN_step hct hr (mem_reachN_self _ _ _)) h4
 
-/-- ISOLATION, for ALL sequences of setter calls: an object whose reachable cells are disjoint from the telecommand's
-    shows the same view (and reaches the same cells) after any number of `seq_count` / `apid` / `source_id` / `app_data`
-    assignments on the telecommand, refused calls included -/
-theorem C02_heap_tc_setters_frame (s : Store) (tc x : Addr) (hd : Disjoint (reach s x) (reach s tc)) (ops : List TcOp) :
-    view (runOps (tcSet tc) ops s) x = view s x ∧ reach (runOps (tcSet tc) ops s) x = reach s x := by
-  have key : ∀ (ops : List TcOp) (s0 : Store), ScalSteps (reach s tc) s s0 →
-      ScalSteps (reach s tc) s (runOps (tcSet tc) ops s0) := by
-    intro ops
-    induction ops with
-    | nil => intro s0 h; exact h
-    | cons o ops ih =>
-      intro s0 h
-      simp only [runOps, List.foldl_cons]
-      cases hrun : (tcSet tc o).run s0 with
-      | none => exact ih s0 h
-      | some p =>
-        obtain ⟨u, s1⟩ := p
-        have st := C02_heap_tc_setter_confined s0 tc o u s1 hrun
-        have e : reach s0 tc = reach s tc := h.reach_eq depth tc
-        rw [e] at st
-        exact ih s1 (h.trans st)
-  have st := key ops s (.refl s)
-  exact ⟨st.view_eq depth x (fun a ha hx => hd a hx ha), st.reach_eq depth x⟩
+/-- the same for the documented setters of a telemetry packet (`apid`, `seq_flags`, `tm_data`) -/
+theorem C02_heap_tm_setter_confined (n : Nat) (s : Store) (tm : Addr) (op : TmOp) (u : Unit) (s' : Store)
+    (h : (tmSet tm op).run s = some (u, s')) : ScalSteps (reachN (n + 2) s tm) s s' := by
+  have hself : tm ∈ reachN (n + 2) s tm := mem_reachN_self _ _ _
+  cases op with
+  | apid v =>
+    simp only [tmSet] at h
+    obtain ⟨hd, s1, h1, h2⟩ := (run_bind_some _ _ _ _ _).mp h
+    obtain ⟨⟨ct, hct, hr⟩, e⟩ := (ref_run _ _ _ _ _).mp h1
+    subst s1
+    obtain ⟨pid, s2, h3, h4⟩ := (run_bind_some _ _ _ _ _).mp h2
+    obtain ⟨⟨ch, hch, hr2⟩, e⟩ := (ref_run _ _ _ _ _).mp h3
+    subst s2
+    exact scalSteps_setScal (.refl s) (mem_reachN_step hct hr (mem_reachN_step hch hr2 (mem_reachN_self _ _ _))) h4
+  | seqFlags v =>
+    simp only [tmSet] at h
+    obtain ⟨hd, s1, h1, h2⟩ := (run_bind_some _ _ _ _ _).mp h
+    obtain ⟨⟨ct, hct, hr⟩, e⟩ := (ref_run _ _ _ _ _).mp h1
+    subst s1
+    obtain ⟨psc, s2, h3, h4⟩ := (run_bind_some _ _ _ _ _).mp h2
+    obtain ⟨⟨ch, hch, hr2⟩, e⟩ := (ref_run _ _ _ _ _).mp h3
+    subst s2
+    exact scalSteps_setScal (.refl s) (mem_reachN_step hct hr (mem_reachN_step hch hr2 (mem_reachN_self _ _ _))) h4
+  | tmData m =>
+    simp only [tmSet] at h
+    obtain ⟨hd, s1, h1, h2⟩ := (run_bind_some _ _ _ _ _).mp h
+    obtain ⟨⟨ct, hct, hr⟩, e⟩ := (ref_run _ _ _ _ _).mp h1
+    subst s1
+    obtain ⟨sec, s2, h3, h4⟩ := (run_bind_some _ _ _ _ _).mp h2
+    obtain ⟨_, e⟩ := (ref_run _ _ _ _ _).mp h3
+    subst s2
+    obtain ⟨ts, s3, h5, h6⟩ := (run_bind_some _ _ _ _ _).mp h4
+    obtain ⟨_, e⟩ := (scalAt_run _ _ _ _ _).mp h5
+    subst s3
+    split at h6
+    · exact ((fail_run _ _ _).mp h6).elim
+    · obtain ⟨u1, s4, h7, h8⟩ := (run_bind_some _ _ _ _ _).mp h6
+      have st1 := scalSteps_setScal (.refl s) hself h7
+      exact scalSteps_setScal st1 (mem_reachN_step hct hr (mem_reachN_self _ _ _)) h8
+
+/-- ISOLATION, for ALL sequences of setter calls and EVERY depth `n + 2`: an object whose reachable cells are disjoint
+    from the telecommand's shows the same view (and reaches the same cells) after any number of `seq_count` / `apid` /
+    `source_id` / `app_data` assignments on the telecommand, refused calls included (`view`, `reach` are the case `n = 6`) -/
+theorem C02_heap_tc_setters_frame (n : Nat) (s : Store) (tc x : Addr)
+    (hd : Disjoint (reachN (n + 2) s x) (reachN (n + 2) s tc)) (ops : List TcOp) :
+    viewN (n + 2) (runOps (tcSet tc) ops s) x = viewN (n + 2) s x ∧
+    reachN (n + 2) (runOps (tcSet tc) ops s) x = reachN (n + 2) s x :=
+  C11_heap_setters_frame (tcSet tc) tc (n + 2) (fun s op u s' h => C02_heap_tc_setter_confined n s tc op u s' h) s x hd ops
+
+/-- … and after any number of `apid` / `seq_flags` / `tm_data` assignments on a telemetry packet -/
+theorem C02_heap_tm_setters_frame (n : Nat) (s : Store) (tm x : Addr)
+    (hd : Disjoint (reachN (n + 2) s x) (reachN (n + 2) s tm)) (ops : List TmOp) :
+    viewN (n + 2) (runOps (tmSet tm) ops s) x = viewN (n + 2) s x ∧
+    reachN (n + 2) (runOps (tmSet tm) ops s) x = reachN (n + 2) s x :=
+  C11_heap_setters_frame (tmSet tm) tm (n + 2) (fun s op u s' h => C02_heap_tm_setter_confined n s tm op u s' h) s x hd ops
 
 /-- the header a telecommand / telemetry / space-packet object holds (first object attribute) -/
 def headerOf (s : Store) (p : Addr) : Option Addr := (s[p]?.bind fun c => c.refs[0]?).join
 
-/-- C15, all histories: the request ID taken from a telecommand (`RequestId.from_pus_tc`) is a SNAPSHOT — no sequence of
-    setter calls on the telecommand afterwards changes anything readable through the request ID -/
-theorem C15_heap_reqid_isolated (s : Store) (hc : Closed s) (tc : Addr) (htc : tc < s.length)
+/-- C15, all histories, every depth: the request ID taken from a telecommand (`RequestId.from_pus_tc`) is a SNAPSHOT — no
+    sequence of setter calls on the telecommand afterwards changes anything readable through the request ID -/
+theorem C15_heap_reqid_isolated (n : Nat) (s : Store) (hc : Closed s) (tc : Addr) (htc : tc < s.length)
     (hl : ∀ hdr, headerOf s tc = some hdr → KidsAreLeaves s hdr)
     (rid : Addr) (s' : Store) (h : (reqIdFromPusTc tc).run s = some (rid, s')) (ops : List TcOp) :
-    Disjoint (reach s' rid) (reach s' tc) ∧ view (runOps (tcSet tc) ops s') rid = view s' rid := by
+    Disjoint (reachN (n + 2) s' rid) (reachN (n + 2) s' tc) ∧
+    viewN (n + 2) (runOps (tcSet tc) ops s') rid = viewN (n + 2) s' rid := by
   unfold reqIdFromPusTc at h
   obtain ⟨hdr, s1, h1, h2⟩ := (run_bind_some _ _ _ _ _).mp h
   obtain ⟨⟨ct, hct, hr⟩, e⟩ := (ref_run _ _ _ _ _).mp h1
   subst s1
-  have hsep := C15_heap_reqid_separated s hc hdr (hl hdr (by simp [headerOf, hct, hr])) rid s' h2 tc htc
-  exact ⟨hsep, (C02_heap_tc_setters_frame s' tc rid hsep ops).1⟩
-
-/-- SEPARATION (since b7949db): the header `copy.deepcopy` makes has no cell in common with any object that existed -/
-private theorem deepCopyHeader_separated (s : Store) (hc : Closed s) (hdr : Addr) (hl : KidsAreLeaves s hdr)
-    (h' : Addr) (s' : Store) (h : (deepCopyHeader hdr).run s = some (h', s')) :
-    ∃ t, s' = s ++ t ∧ (∀ c ∈ t, ∀ r ∈ c.kids, s.length ≤ r) ∧ s.length ≤ h' := by
-  unfold deepCopyHeader at h
-  obtain ⟨ch, s0, h0, h01⟩ := (run_bind_some _ _ _ _ _).mp h
-  obtain ⟨hch, e⟩ := (cellAt_run _ _ _ _).mp h0
-  subst s0
-  obtain ⟨pid, s1, h1, h2⟩ := (run_bind_some _ _ _ _ _).mp h01
-  obtain ⟨⟨ch1, hch1, hpid⟩, e1⟩ := (ref_run _ _ _ _ _).mp h1
-  subst s1
-  obtain ⟨psc, s2, h3, h4⟩ := (run_bind_some _ _ _ _ _).mp h2
-  obtain ⟨⟨ch2, hch2, hpsc⟩, e2⟩ := (ref_run _ _ _ _ _).mp h3
-  subst s2
-  have e3 : ch1 = ch := by rw [hch] at hch1; exact (Option.some.inj hch1).symm
-  have e4 : ch2 = ch := by rw [hch] at hch2; exact (Option.some.inj hch2).symm
-  subst e3 e4
-  obtain ⟨pid', s4, h7, h8⟩ := (run_bind_some _ _ _ _ _).mp h4
-  obtain ⟨cp, hcp, e5, e6⟩ := (copyCell_run _ _ _ _).mp h7
-  subst pid' s4
-  obtain ⟨psc', s5, h9, h10⟩ := (run_bind_some _ _ _ _ _).mp h8
-  obtain ⟨cq, hcq, e7, e8⟩ := (copyCell_run _ _ _ _).mp h9
-  subst psc' s5
-  obtain ⟨e9, e10⟩ := (new_run _ _ _ _).mp h10
-  subst h' s'
-  have hql : psc < s.length := closed_kid_lt hc hch (kid_of_ref hpsc)
-  rw [List.getElem?_append_left hql] at hcq
-  have hkp : cp.kids = [] := leaf_kids (hl pid (by simp [hch, kid_of_ref hpid])) hcp
-  have hkq : cq.kids = [] := leaf_kids (hl psc (by simp [hch, kid_of_ref hpsc])) hcq
-  refine ⟨[cp, cq, { ch2 with refs := [some s.length, some (s.length + 1)] }], by simp, ?_, by simp⟩
-  intro c hcm r hr
-  simp only [List.mem_cons, List.not_mem_nil, or_false] at hcm
-  rcases hcm with rfl | rfl | rfl
-  · simp [hkp] at hr
-  · simp [hkq] at hr
-  · simp [Cell.kids] at hr; rcases hr with rfl | rfl <;> simp
-
-/-- C02, all histories: the generic space-packet view of a telecommand (`to_space_packet()`) has no cell in common with
-    any object that existed before — in particular not with the telecommand — and no sequence of setter calls on the
-    telecommand afterwards changes anything readable through it -/
-theorem C02_heap_space_packet_isolated (s : Store) (hc : Closed s) (tc : Addr) (htc : tc < s.length)
-    (hl : ∀ hdr, headerOf s tc = some hdr → KidsAreLeaves s hdr)
-    (sp : Addr) (s' : Store) (h : (tcToSpacePacket tc).run s = some (sp, s')) (ops : List TcOp) :
-    (∀ b, b < s.length → Disjoint (reach s' sp) (reach s' b)) ∧ view (runOps (tcSet tc) ops s') sp = view s' sp := by
-  unfold tcToSpacePacket at h
-  obtain ⟨hdr, s1, h1, h2⟩ := (run_bind_some _ _ _ _ _).mp h
-  obtain ⟨⟨ct, hct, hr⟩, e⟩ := (ref_run _ _ _ _ _).mp h1
-  subst s1
-  obtain ⟨n, s2, h3, h4⟩ := (run_bind_some _ _ _ _ _).mp h2
-  obtain ⟨_, e⟩ := (scalAt_run _ _ _ _ _).mp h3
-  subst s2
-  obtain ⟨hdr', s3, h5, h6⟩ := (run_bind_some _ _ _ _ _).mp h4
-  obtain ⟨t, e, ht, hh⟩ := deepCopyHeader_separated s hc hdr (hl hdr (by simp [headerOf, hct, hr])) hdr' s3 h5
-  subst s3
-  obtain ⟨e1, e2⟩ := (new_run _ _ _ _).mp h6
-  subst sp s'
-  have hsep : ∀ b, b < s.length → Disjoint (reach (s ++ t ++ [⟨.spacePacket, [some hdr'], [5, n + 2]⟩]) (s ++ t).length)
-      (reach (s ++ t ++ [⟨.spacePacket, [some hdr'], [5, n + 2]⟩]) b) := by
-    intro b hb
-    rw [List.append_assoc]
-    apply C11_heap_fresh_disjoint depth s _ _ b hc hb
-    · intro c hcm r hr'
-      rcases List.mem_append.mp hcm with hm | hm
-      · exact ht c hm r hr'
-      · simp only [List.mem_cons, List.not_mem_nil, or_false] at hm
-        subst hm
-        simp [Cell.kids] at hr'
-        subst hr'
-        exact hh
-    · simp
-  exact ⟨hsep, (C02_heap_tc_setters_frame _ tc _ (hsep tc htc) ops).1⟩
+  have hsep := C15_heap_reqid_separated (n + 2) s hc hdr (hl hdr (by simp [headerOf, hct, hr])) rid s' h2 tc htc
+  exact ⟨hsep, (C02_heap_tc_setters_frame n s' tc rid hsep ops).1⟩
 
 private theorem new_run_eq (c : Cell) (s : Store) : (new c).run s = some (s.length, s ++ [c]) := rfl
 
